@@ -116,11 +116,12 @@ def Circ.checkValid (c : Circ) (o : Op) : Except Err Unit :=
   else .ok ()
 
 /-! ## append -/
+def Circ.availStep (c : Circ) (m q : Nat) : Nat :=
+  match c.lastOn q with
+  | some k => max m (k + 1)
+  | none => m
 def Circ.findAvailable (c : Circ) (loc : List Nat) : Nat :=
-  if c.cycles.isEmpty then 0 else
-  loc.foldl (fun m q => match c.lastOn q with
-    | some k => max m (k + 1)
-    | none => m) 0
+  if c.cycles.isEmpty then 0 else loc.foldl c.availStep 0
 
 /-- `_find_available_or_append_cycle` followed by `_append` -/
 def Circ.appendCore (c : Circ) (o : Op) : Circ × Nat :=
